@@ -17,7 +17,7 @@ def sh(cmd, cwd=None):
 def main():
     man = json.load(open('/verif/MANIFEST.json'))
     for d in sys.argv[1:]:
-        patch = os.path.join(d, 'patch.diff')
+        patch = os.path.abspath(os.path.join(d, 'patch.diff'))
         rc, out = sh('git -C /repo status --porcelain')
         if out.strip():
             sys.exit('/repo not clean')
